@@ -213,6 +213,21 @@ def run(ctx) -> None:
                   "_update_cfg_from_vcs is reachable without passing _parse_vcs_options", loc=updf.loc(look[0]))
         merged = [n for n in ast.walk(prog.function("cli._parse_vcs_options").node) if isinstance(n, ast.keyword) and n.arg == "tag_scope"]
         ctx.check("R1", bool(merged), "_parse_vcs_options merges tag_scope into cfg", "cli._parse_vcs_options: --tag-scope is not merged", "", loc="src/bumpver/cli.py")
+        # ... exactly when the option was given, as the TagScope member of that name
+        pvo_fn = prog.function("cli._parse_vcs_options")
+        pg_ = cfgs.get(pvo_fn.fq)
+        ppc_ = PathCond(pg_, extra_atoms=["tag_scope is None"], only=lambda t_: t_ == "tag_scope is None", max_atoms=2)
+        sites_ = [n for n in pg_.nodes if n.kind == "stmt" and isinstance(n.ast, ast.Assign) and isinstance(n.ast.value, ast.Call) and any(kw.arg == "tag_scope" for kw in n.ast.value.keywords)]
+        ok_m = len(sites_) == 1 and sites_[0].id in pg_.reachable() and ppc_.reach(sites_[0].id).project(["tag_scope is None"]).equiv(~BF.var("tag_scope is None"))
+        if ok_m:
+            v_ = [kw.value for kw in sites_[0].ast.value.keywords if kw.arg == "tag_scope"][0]
+            ok_m = unparse(v_) in ("config.TagScope(tag_scope)", "tag_scope")
+        ctx.check("R1", ok_m, "_parse_vcs_options: cfg.tag_scope := TagScope(--tag-scope) exactly when the option was given",
+                  "cli._parse_vcs_options: --tag-scope is not merged into the configuration exactly when given",
+                  f"{[(unparse(n_.ast)[:60], ppc_.reach(n_.id).project(['tag_scope is None']).to_dnf()) for n_ in sites_]}: the newest tag is chosen with the config file's scope although "
+                  "--tag-scope was given", loc=pvo_fn.loc(), witness={"command": "bumpver update --tag-scope branch"})
+
+    tag_listing_rule(ctx, "R1")
 
     # ---------------------------------------------------------------- R2
     gl = prog.function("cli.get_latest_vcs_version_tag")
@@ -343,6 +358,15 @@ def run(ctx) -> None:
                     f"{exc} can propagate out of is_valid (it only catches what its handlers name): one such tag breaks show/update. "
                     f"e.g. a calendar-impossible date like 'v20210230' for 'vYYYY0M0D'",
                     loc=iv.loc(), path=chain, witness={"tag": "v20210230", "pattern": "vYYYY0M0D"} if modname == "v2version" else {"tag": "2021.02.30", "pattern": "{year}.{month}.{dom}"})
+        # ... nor an UnboundLocalError: every local read on the parse path is bound on every path to the read
+        for fq_ in sorted(ctx.effects.reachable_functions([iv.fq])):
+            if fq_.split(".")[0] not in ("v1version", "v2version", "v1patterns", "v2patterns", "version"):
+                continue
+            f_ = prog.function(fq_)
+            ub = shapes.maybe_unbound(cfgs.get(fq_), f_)
+            ctx.check("R4", not ub, f"{fq_}: every local is bound before it is read (definite assignment)", f"{fq_}: a local can be read before it is bound (UnboundLocalError escapes is_valid)",
+                      f"{sorted({(nm_, cfgs.get(fq_).nodes[nid_].lineno) for nm_, nid_ in ub})[:4]}: e.g. a handler that no longer raises falls through to code that uses the value "
+                      "the failed statement should have bound; a tag with an impossible date then breaks show/update", loc=f_.loc(), witness={"tag": "v20200230.0007"})
         # int() of groups: every field converted with int() has a digit-only recogniser
     v2p = prog.const("v2patterns", "PART_PATTERNS")
     v2f = prog.const("v2patterns", "PATTERN_PART_FIELDS")
@@ -483,3 +507,25 @@ def pep440_of_tag_rule(ctx, rule: str) -> None:
             ctx.check(rule, ok, "_update_cfg_from_vcs: pep440_version = to_pep440(<adopted tag>) - `show` prints the PEP440 form of the version it shows",
                       "cli._update_cfg_from_vcs: pep440_version is not derived from the adopted tag (show prints a PEP440 value of another version)", unparse(v)[:100], loc=uc.loc(v))
     ctx.floor(rule, "cfg replacements in _update_cfg_from_vcs", n, 1)
+
+
+def tag_listing_rule(ctx, rule: str) -> None:
+    """ls_tags / ls_tags_branch evaluated on a four-line listing: one tag per output line (the first blank-separated word
+    of the stripped line), nothing else splits a tag - a tag name containing other white space (U+00A0) stays one tag."""
+    from sa.model import CannotFold, EvalError
+    prog = ctx.prog
+    listing = "v1.2.3\n  v1.2.4  \ntip                                5:0fde\njunk\u00a09.9.9\n"
+    want = ["v1.2.3", "v1.2.4", "tip", "junk\u00a09.9.9"]
+    for meth in ("ls_tags", "ls_tags_branch"):
+        fn = prog.function(f"vcs.VCSAPI.{meth}")
+        ctx.visit(fn.fq)
+        try:
+            env = {"__strict__": True, "__stubs__": {fn.params[0]: lambda f, node: listing}}
+            got, _ys = prog.run_body(fn, env)
+        except EvalError as ex:
+            got = f"raises: {ex}"
+        except (CannotFold, TypeError, AttributeError, KeyError, ValueError, IndexError) as ex:
+            ctx.observe(f"{fn.fq} not evaluated ({type(ex).__name__}: {str(ex)[:80]})")
+            continue
+        ctx.check(rule, got == want, f"{fn.fq}: one tag per line of the listing (evaluated on 4 lines)", f"{fn.fq}: the tag listing is not read one tag per line",
+                  f"{got!r}, expected {want!r}: part of a non-matching tag name is taken for a version tag", loc=fn.loc(), witness={"tag": "junk\u00a09.9.9"})
